@@ -56,6 +56,9 @@ pub struct TreeCfg {
     /// verdict table for the instrumented compaction filter (C17); index = key index
     #[serde(default)]
     pub filter_verdicts: Option<Vec<crate::cfilter::VerdictSpec>>,
+    /// the instrumented filter plays a client that opens a snapshot in the middle of a compaction
+    #[serde(default)]
+    pub mid_snapshot: bool,
 }
 
 impl TreeCfg {
@@ -87,6 +90,7 @@ impl TreeCfg {
                 },
             ],
             filter_verdicts: None,
+            mid_snapshot: false,
         }
     }
 
@@ -250,7 +254,12 @@ impl Driver {
 
         if let (Some(v), Some(log)) = (&c.filter_verdicts, &self.filter_log) {
             config = config.with_compaction_filter_factory(Some(Arc::new(
-                crate::cfilter::Factory::new(c.keys.clone(), v.clone(), log.clone()),
+                crate::cfilter::Factory::new(
+                    c.keys.clone(),
+                    v.clone(),
+                    log.clone(),
+                    if c.mid_snapshot { Some(self.visible.clone()) } else { None },
+                ),
             )));
         }
 
@@ -331,6 +340,18 @@ impl Driver {
         }
     }
 
+    fn flush_all(&mut self, wm: SeqNo) -> Result<(), String> {
+        let t = self.tree.as_ref().expect("tree open");
+        let lock = t.get_flush_lock();
+        t.rotate_memtable();
+        self.model.rotate();
+        let r = t.flush(&lock, wm);
+        drop(lock);
+        r.map_err(|e| format!("flush: {e:?}"))?;
+        self.model.flush_sealed();
+        Ok(())
+    }
+
     fn next_seq(&self) -> SeqNo {
         self.seqno.next()
     }
@@ -359,6 +380,17 @@ impl Driver {
         }
         if self.filter_log.is_some() {
             self.absorb_filter_log(log_before, before.seqno, &mut info);
+            // snapshots the in-filter client opened while the compaction was running
+            let mids: Vec<SeqNo> = self
+                .filter_log
+                .as_ref()
+                .map(|l| std::mem::take(&mut *l.mid_snaps.lock().unwrap()))
+                .unwrap_or_default();
+            for s in mids {
+                if self.snaps.len() < 3 && !self.snaps.contains(&s) {
+                    self.snaps.push(s);
+                }
+            }
         }
         if let Some(tk) = fifo_before {
             let now: std::collections::BTreeSet<u64> =
@@ -425,6 +457,56 @@ impl Driver {
                         self.del_one(*k, false, s);
                         self.publish(s);
                     }
+                }
+                Op::Seq { ops } => {
+                    for o in ops {
+                        self.apply_inner(o, info)?;
+                    }
+                }
+                Op::PutF { k, big } => {
+                    let s = self.next_seq();
+                    self.put_one(*k, *big, s);
+                    self.publish(s);
+                    self.flush_all(0)?;
+                }
+                Op::DelF { k } => {
+                    let s = self.next_seq();
+                    self.del_one(*k, false, s);
+                    self.publish(s);
+                    self.flush_all(0)?;
+                }
+                Op::FlushLeveled { w, p } => {
+                    let wm = self.wm(*w);
+                    info.watermark = Some(wm);
+                    self.flush_all(wm)?;
+                    let lp = &self.cfg.leveled[*p as usize];
+                    let s = Leveled::default()
+                        .with_l0_threshold(lp.l0_threshold)
+                        .with_table_target_size(lp.target_size)
+                        .with_level_ratio_policy(vec![lp.ratio]);
+                    self.t()
+                        .compact(Arc::new(s), wm)
+                        .map_err(|e| format!("compact(leveled): {e:?}"))?;
+                }
+                Op::IngestAbandon { items } => {
+                    let mut ing = self
+                        .tree
+                        .as_ref()
+                        .expect("tree open")
+                        .ingestion()
+                        .map_err(|e| format!("ingestion(): {e:?}"))?;
+                    for (k, kind) in items {
+                        self.opidx += 1;
+                        let key = self.cfg.keys[*k as usize].clone();
+                        match kind {
+                            IKind::Val => ing.write(key, small_value(b'x', self.opidx)),
+                            IKind::BigVal => ing.write(key, big_value(b'x', self.opidx)),
+                            IKind::Tomb => ing.write_tombstone(key),
+                            IKind::WeakTomb => ing.write_weak_tombstone(key),
+                        }
+                        .map_err(|e| format!("ingest write: {e:?}"))?;
+                    }
+                    drop(ing);
                 }
                 Op::Rotate => {
                     self.t().rotate_memtable();
